@@ -186,7 +186,12 @@ func cmdCheck(args []string) int {
 		}
 		r.Obls = kept
 	}
+	tGen := time.Since(t0).Seconds()
 	work := filepath.Join(verifDir(), "work", id)
+	if st, err := os.Stat("/dev/shm"); err == nil && st.IsDir() {
+		work = filepath.Join("/dev/shm", fmt.Sprintf("govc-%d-%s", os.Getpid(), id))
+		defer os.RemoveAll(work)
+	}
 	os.RemoveAll(work)
 	quickSec, fullSec := 4, 20
 	all := false
@@ -194,6 +199,7 @@ func cmdCheck(args []string) int {
 		quickSec, fullSec, all = 60, 60, true
 	}
 	solveAll(results, work, quickSec, fullSec, all, 16, nil)
+	tSolve := time.Since(t0).Seconds()
 	// vacuity: the facts of each function must be satisfiable at entry (cover)
 	covers := runCovers(results, work)
 	for _, c := range covers {
@@ -280,6 +286,7 @@ func cmdCheck(args []string) int {
 			}
 		}
 	}
+	fmt.Printf("phases: load+vcgen=%.1fs solve=%.1fs rest=%.1fs\n", tGen, tSolve-tGen, time.Since(t0).Seconds()-tSolve)
 	fmt.Printf("property=%s tier=%s functions=%d obligations=%d discharged=%d wall=%.1fs\n", id, *tier, len(results), total, discharged, wall)
 	if len(undecided) > 0 {
 		for _, u := range undecided {
@@ -362,6 +369,11 @@ func writeReplayFile(id string, o *Obl, results []*FuncResult) string {
 	model := o.Model
 	if len(model) > 200000 {
 		model = model[:200000]
+	}
+	if data, err := os.ReadFile(o.File); err == nil {
+		qpath := strings.TrimSuffix(path, ".json") + ".smt2"
+		os.WriteFile(qpath, data, 0o644)
+		o.File = qpath
 	}
 	rec := map[string]any{
 		"property": id, "obligation": o.Name, "position": o.Pos, "result": o.Result, "backend": o.Backend,
